@@ -57,6 +57,7 @@ type H struct {
 	release map[string]chan struct{}
 
 	onErrors   int32
+	injected   int32 // number of failures the harness injected on purpose
 	failNext   int32 // fail the next n LowerLevelUpdate calls (map / store wrapper)
 	files      *fileRecorder
 	removed    []string
